@@ -72,4 +72,24 @@ def writeU32 (bo : BO) (v : Nat) : Bytes := orderPutUint32 bo v
 /-- `binary.Write(w, order, &p)` -/
 def writePoint (bo : BO) (p : Pt UInt64) : Bytes := encPoint bo p
 
+/-! ### the slice walk: `ps []geom.Point` -/
+
+/-- `decoder.value` on a `[]geom.Point` of length `n`: `for i := 0; i < l; i++ { d.value(v.Index(i)) }`, element by
+element through the struct walk, 16 bytes of the ONE buffer each, in order -/
+def decPoints (bo : BO) : Nat → Bytes → List (Pt UInt64)
+  | 0, _ => []
+  | n+1, buf => decPoint bo (buf.take 16) :: decPoints bo n (buf.drop 16)
+/-- `encoder.value` on a `[]geom.Point`: the same loop, each element appended to the ONE buffer -/
+def encPoints (bo : BO) : List (Pt UInt64) → Bytes
+  | [] => []
+  | p :: ps => encPoint bo p ++ encPoints bo ps
+
+/-- `binary.Read(r, order, &ps)`, `ps []geom.Point` of length `n`: ONE `io.ReadFull` of `dataSize = 16·len(ps)`
+bytes, then the slice walk -/
+def readPoints (bo : BO) (n : Nat) (bs : Bytes) : Except Err (List (Pt UInt64) × Bytes) := do
+  let (b, r) ← takeN (16 * n) bs
+  pure (decPoints bo n b, r)
+/-- `binary.Write(w, order, &ps)`: the slice walk into ONE buffer of `dataSize` bytes, ONE `w.Write(buf)` -/
+def writePoints (bo : BO) (ps : List (Pt UInt64)) : Bytes := encPoints bo ps
+
 end GeomV.C05.BinStd
